@@ -303,6 +303,9 @@ func runStoreCaseProg(cs *StoreCase, z []zoo.Named, probe storeProbe, prog *atom
 			ref[k] = v
 		case "getall":
 			m := s.GetAll()
+			if m == nil {
+				return fail("getall-nil-map", "step %d: GetAll returned a nil map (store has %d entries): the snapshot is a map of the caller's own, which the caller may write into — a copy of a plain map is never nil", si, len(ref))
+			}
 			want := map[string]any{}
 			for kk, vv := range m {
 				want[kk] = vv
